@@ -4452,7 +4452,8 @@ look_sysfsnode(struct hwloc_topology *topology,
 		    if (keep) {
 		      /* keep this NUMA node but fixed its locality and add an info about the GPU */
 		      char nvgpulocalcpuspath[300];
-		      node->subtype = strdup("GPUMemory");
+		      if (!node->subtype) /* two GPUs may pretend to own the same node */
+			node->subtype = strdup("GPUMemory");
 		      hwloc_obj_add_info(node, "PCIBusID", dirent->d_name);
 		      snprintf(nvgpulocalcpuspath, sizeof(nvgpulocalcpuspath), "/sys/bus/pci/devices/%s/local_cpus", dirent->d_name);
 		      err = hwloc__read_path_as_cpumask(nvgpulocalcpuspath, node->cpuset, data->root_fd);
